@@ -1064,6 +1064,82 @@ let c21 = function
        else "FAIL key=source-lr-table-unsafe the LR table of the generated source fails the safety validator for the transformed grammar (no-failing-input-found)")
   | _ -> "FAIL malformed case"
 
+(* C23: typed AST of the generated adapter vs the adapter model *)
+let rec v_to_string (v : AstModel.coq_V) : string =
+  match v with
+  | AstModel.VTok t -> Printf.sprintf "(t %d)" (int_of_n t)
+  | AstModel.VStruct fs -> "(s" ^ Stdlib.String.concat "" (Stdlib.List.map (fun x -> " " ^ v_to_string x) fs) ^ ")"
+  | AstModel.VEnum (_, x) -> "(w " ^ v_to_string x ^ ")"
+  | AstModel.VVec xs -> "(v" ^ Stdlib.String.concat "" (Stdlib.List.map (fun x -> " " ^ v_to_string x) xs) ^ ")"
+  | AstModel.VSome x -> "(some " ^ v_to_string x ^ ")"
+  | AstModel.VNone -> "(none)"
+
+let rec real_to_string (x : Sexp.t) : string =
+  match x with
+  | L [A "t"; n] -> Printf.sprintf "(t %d)" (int_of_sx n)
+  | L (A "s" :: fs) -> "(s" ^ Stdlib.String.concat "" (Stdlib.List.map (fun y -> " " ^ real_to_string y) fs) ^ ")"
+  | L [A "w"; y] -> "(w " ^ real_to_string y ^ ")"
+  | L (A "v" :: xs) -> "(v" ^ Stdlib.String.concat "" (Stdlib.List.map (fun y -> " " ^ real_to_string y) xs) ^ ")"
+  | L [A "some"; y] -> "(some " ^ real_to_string y ^ ")"
+  | L [A "none"] -> "(none)"
+  | _ -> "(?)"
+
+let c23 = function
+  | [A kind; tb; L aprods; L user; inp; L calls; real] ->
+    let gt = if kind = "lr" then AstModel.LALR1 else AstModel.LLK in
+    let sattr = function 1 -> AstModel.SRepetitionAnchor | 2 -> AstModel.SOption | 3 -> AstModel.SClipped | _ -> AstModel.SNone in
+    let pattr = function 1 -> AstModel.PCollectionStart | 2 -> AstModel.PAddToCollection | 3 -> AstModel.POptionalSome | 4 -> AstModel.POptionalNone | _ -> AstModel.PNone in
+    let g = Stdlib.List.map (function
+        | L [l; pa; L items] ->
+          { AstModel.ap_lhs = n_of_int (int_of_sx l); ap_attr = pattr (int_of_sx pa);
+            ap_rhs = Stdlib.List.map (function L [sy; sa] -> (sym_of_int (int_of_sx sy), sattr (int_of_sx sa)) | _ -> failwith "member") items }
+        | _ -> failwith "aprod") aprods in
+    let user' = Stdlib.List.map (fun x -> n_of_int (int_of_sx x)) user in
+    let w = ns_of_sx inp in
+    if not (AstModel.attrs_ok gt g) then "FAIL key=attrs-not-ok the exported attributed grammar fails attrs_ok (the shapes the adapter model and its theorems rely on)"
+    else begin
+      let acts =
+        if kind = "lr" then begin
+          let tb' = lr_table_of_sx tb in
+          let nstates = Stdlib.List.length tb'.LRParser.lr_states in
+          let fuel = nat_of_int ((Stdlib.List.length w + 2) * (nstates + 2) * 4 + 20) in
+          (match LROptions.lr_run_opts fuel tb' LROptions.lr_default_options w with
+           | LROptions.AcceptedO (calls, _) -> Some calls
+           | _ -> None)
+        end else begin
+          let tb' = ll_tables_of_sx tb in
+          let opts = { LLParser.o_recovery = false; o_trim = false; o_max_depth = None } in
+          let rec go fuel tries =
+            (match LLParser.ll_run (nat_of_int fuel) tb' opts w with
+             | LLParser.OutOfFuel when tries > 0 -> go (fuel * 4) (tries - 1)
+             | r -> r) in
+          (match go (8 * Stdlib.List.length w + 64) 5 with
+           | LLParser.Accepted (acts, _) -> Some acts
+           | _ -> None)
+        end in
+      match acts with
+      | None -> "FAIL key=model-rejects-accepted-input the model parser does not accept an input the generated parser accepted"
+      | Some acts ->
+        (match AstModel.build_ast gt user' g acts with
+         | None -> "FAIL key=adapter-model-stuck the adapter model gets stuck on the action trace (stack underflow / wrong kind of value / leftovers)"
+         | Some (v, mcalls) ->
+           (* the observed value is the argument of the LAST call of the user's start symbol action (for an augmented
+              LALR grammar the value left on the stack belongs to the added start production) *)
+           let v = (match user' with
+               | s0 :: _ -> (match Stdlib.List.rev (Stdlib.List.filter (fun (n, _) -> n = s0) mcalls) with (_, x) :: _ -> x | [] -> v)
+               | [] -> v) in
+           let ms = v_to_string v and rs = real_to_string real in
+           let mc = Stdlib.List.map int_of_n (AstModel.call_names mcalls) and rc = ints_of_sx (L calls) in
+           if ms <> rs then Printf.sprintf "FAIL key=ast-differs-from-model the AST of the generated adapter is %s, the adapter model (proved to mirror the input) gives %s" rs ms
+           else if mc <> rc then "FAIL key=user-action-calls-differ-from-model the sequence of user actions differs from the model's"
+           else
+             let has k = (let re = k in let n = Stdlib.String.length re in
+                          let rec find i = i + n <= Stdlib.String.length ms && (Stdlib.String.sub ms i n = re || find (i + 1)) in find 0) in
+             Printf.sprintf "OK %d %s%s%s%s" (if has "(v (" || has "(some" then 1 else 0) kind
+               (if has "(v (" then " vec" else "") (if has "(some" then " some" else "") (if has "(none)" then " none" else ""))
+    end
+  | _ -> "FAIL malformed case"
+
 (* C29 *)
 let c29 = function
   | [L evs; sched; L log; alive] ->
@@ -1238,6 +1314,7 @@ let dispatch (sx : Sexp.t) : string =
   | L (A "lro" :: args) -> c20_lr args
   | L (A "llt" :: args) -> c19_ll args
   | L (A "enc" :: args) -> c21 args
+  | L (A "ast" :: args) -> c23 args
   | L (A "lrt" :: args) -> c19_lr args
   | L (A "p2o" :: args) -> c30_p2o args
   | L (A "mode" :: args) -> c16_mode args
